@@ -672,7 +672,7 @@ var def = pbt.Def[Case]{Name: "hostile-stream", Gen: gen, Run: judge, Journal: t
 
 func TestProp(t *testing.T) {
 	outerT = t
-	pbt.Check(t, run, def, 10000, 1000000)
+	pbt.Check(t, run, def, 10000, 500000)
 }
 
 var defBytes = pbt.Def[BytesCase]{Name: "hostile-bytes", Run: judgeBytes}
